@@ -326,4 +326,60 @@ theorem burst_feed (b : Nat) : ∀ (s r : Ser) (n : Nat) (D : Bytes) (o : Nat),
         · simp [hx]
         · exact h8 x hx
 
+
+-- ------------------------------------------------------------------------------------------------
+-- crash points of an incoming transfer
+-- ------------------------------------------------------------------------------------------------
+
+theorem set_fs (r : Ser) (c : Option Chunk) : (r.setTransmissionData c).1.fs = r.fs.run (r.acceptOps c) := by
+  unfold Ser.setTransmissionData Ser.acceptOps
+  cases c with
+  | none => rfl
+  | some c => simp only; split <;> simp [FS.run_nil]
+
+theorem receiveOps_split (w : Bool) (c : Chunk) :
+    ∃ pre tail, receiveOps w c = pre ++ tail ∧ (∀ op ∈ pre, op.safe = true) ∧ tail.length ≤ 1 := by
+  obtain ⟨d, f, l⟩ := c
+  cases l
+  · refine ⟨receiveOps w ⟨d, f, false⟩, [], by simp, ?_, by simp⟩
+    cases f <;> cases w <;> simp [receiveOps, FsOp.safe]
+  · refine ⟨(if f then (if w then [.close .tmp1] else []) ++ [.openW .tmp1] else []) ++ [.write .tmp1 d, .close .tmp1],
+      [.rename .tmp1 .dump], by simp [receiveOps], ?_, by simp⟩
+    cases f <;> cases w <;> simp [FsOp.safe]
+
+theorem acceptOps_split (r : Ser) (c : Option Chunk) :
+    ∃ pre tail, r.acceptOps c = pre ++ tail ∧ (∀ op ∈ pre, op.safe = true) ∧ tail.length ≤ 1 := by
+  unfold Ser.acceptOps
+  cases c with
+  | none => exact ⟨[], [], rfl, by simp, by simp⟩
+  | some c =>
+    simp only
+    split
+    · exact ⟨[], [], rfl, by simp, by simp⟩
+    · exact receiveOps_split _ _
+
+theorem feedOps_nil (r : Ser) : r.feedOps [] = [] := rfl
+theorem feedOps_cons (r : Ser) (c : Option Chunk) (cs : List (Option Chunk)) :
+    r.feedOps (c :: cs) = r.acceptOps c ++ (r.setTransmissionData c).1.feedOps cs := rfl
+
+/-- a kill anywhere inside an incoming transfer leaves the dump as it was at one of the call boundaries -/
+theorem feedOps_crash (cs : List (Option Chunk)) : ∀ (r : Ser) (k : Nat),
+    ∃ j, j ≤ cs.length ∧ (r.fs.crashAt (r.feedOps cs) k).dump = (r.feed (cs.take j)).1.fs.dump := by
+  induction cs with
+  | nil => intro r k; exact ⟨0, by simp, by simp [feedOps_nil, FS.crashAt, FS.run, feed_nil]⟩
+  | cons c cs ih =>
+    intro r k
+    obtain ⟨pre, tail, hsplit, hsafe, htail⟩ := acceptOps_split r c
+    rw [feedOps_cons]
+    by_cases hk : k ≤ pre.length
+    · refine ⟨0, by simp, ?_⟩
+      rw [hsplit, List.append_assoc, FS.crashAt_append_le _ _ _ _ hk, FS.crashAt_safe_dump _ _ _ hsafe]
+      simp [feed_nil]
+    · have hlen : (r.acceptOps c).length ≤ k := by rw [hsplit]; simp; omega
+      rw [FS.crashAt_append_ge _ _ _ _ hlen, ← set_fs]
+      obtain ⟨j, hj, hdump⟩ := ih (r.setTransmissionData c).1 (k - (r.acceptOps c).length)
+      refine ⟨j + 1, by simp; omega, ?_⟩
+      rw [hdump]
+      simp [feed_cons]
+
 end PSO.Serializer
